@@ -149,6 +149,18 @@ class SDict:
         return 'SDict<%s>' % self.ek
 
 
+class ASet:
+    """set of items the executor does not model (strings): only its cardinality is tracked
+    (membership tests return a fresh boolean; add() increases the cardinality by 0 or 1)"""
+    __slots__ = ('card',)
+
+    def __init__(self, card):
+        self.card = card
+
+    def __repr__(self):
+        return 'ASet'
+
+
 class RandVal:
     """a random.Random() instance: every method returns a fresh value constrained by the library contract"""
 
@@ -202,4 +214,4 @@ def arr_sort(ek):
 
 
 def is_symbolic(v):
-    return isinstance(v, (Sym, SChar, SSeq, SSet, Choice, SDict))
+    return isinstance(v, (Sym, SChar, SSeq, SSet, Choice, SDict, ASet))
